@@ -179,6 +179,7 @@ func applyOp(t *ctree.Tree, o SOp, handle *ctree.Leaf, park func()) Res {
 	case "queryerr":
 		// Query whose visitor returns an error at its (V+1)-th call
 		n := int64(0)
+		failed := false
 		var seen []LeafObs
 		errStop := fmt.Errorf("visitor says stop")
 		err := t.Query(o.P, func(path []string, _ *ctree.Leaf, val interface{}) error {
@@ -192,10 +193,14 @@ func applyOp(t *ctree.Tree, o SOp, handle *ctree.Leaf, park func()) Res {
 			}
 			n++
 			if n == o.V+1 {
+				failed = true
 				return errStop
 			}
 			return nil
 		})
+		if err == nil && failed {
+			return Res{Kind: "swallowed"} // the visitor's error did not come back
+		}
 		if err == nil {
 			return Res{Kind: "leaves", Leaves: seen} // fewer than V+1 leaves matched: it completed
 		}
@@ -207,6 +212,7 @@ func applyOp(t *ctree.Tree, o SOp, handle *ctree.Leaf, park func()) Res {
 		// Walk / WalkSorted with a visitor that parks at every call and, for the
 		// *err kinds, returns an error at its (V+1)-th call
 		fails := o.K == "walkerr" || o.K == "walksortederr"
+		failed := false
 		n := int64(0)
 		var seen []LeafObs
 		errStop := fmt.Errorf("visitor says stop")
@@ -221,6 +227,7 @@ func applyOp(t *ctree.Tree, o SOp, handle *ctree.Leaf, park func()) Res {
 			}
 			n++
 			if fails && n == o.V+1 {
+				failed = true
 				return errStop
 			}
 			return nil
@@ -230,6 +237,9 @@ func applyOp(t *ctree.Tree, o SOp, handle *ctree.Leaf, park func()) Res {
 			err = t.Walk(vf)
 		} else {
 			err = t.WalkSorted(vf)
+		}
+		if err == nil && failed {
+			return Res{Kind: "swallowed"}
 		}
 		if err == nil {
 			return Res{Kind: "leaves", Leaves: seen}
